@@ -108,6 +108,9 @@ func C04Inputs(seeds [][]byte, cbor bool) []C04Case {
 			for _, m := range LengthMutants(s) {
 				add("length/count field at a boundary value", m)
 			}
+			for _, m := range TypeMutants(s) {
+				add("item replaced by an item of another type (CRCs re-computed)", m)
+			}
 		}
 		for _, m := range Truncations(s) {
 			add("truncation", m)
